@@ -1177,12 +1177,22 @@ class FD:
             raise Raised('AttributeError', "'NoneType' object has no attribute %r" % attr)
         if recv is ERR:
             raise Raised('AttributeError', 'exception has no attribute %r' % attr)
-        if isinstance(recv, str) and attr in ('lower', 'upper', 'strip', 'rstrip', 'lstrip', 'replace',
-                                              'startswith', 'endswith', 'split', 'count', 'capitalize',
-                                              'splitlines', 'join'):
+        if isinstance(recv, str) and attr in _PURE_STR_METHODS:
             if any(a is UNKNOWN for a in args):
                 return UNKNOWN
-            return getattr(recv, attr)(*args)
+            if any(isinstance(a, (Obj, Opaque)) for a in args) and attr != 'join':
+                raise Inconclusive('fdeval: str.%s on a model object' % attr)
+            try:
+                return getattr(recv, attr)(*args, **kwargs)
+            except (TypeError, ValueError, LookupError) as ex:
+                raise Raised(type(ex).__name__, str(ex))
+        if isinstance(recv, _STRING_FORMATTER) and attr in ('parse', 'format', 'vformat'):
+            # string.Formatter: a pure helper object of the standard library
+            try:
+                out = getattr(recv, attr)(*args, **kwargs)
+                return list(out) if attr == 'parse' else out
+            except (KeyError, IndexError, ValueError, TypeError) as ex:
+                raise Raised(type(ex).__name__, str(ex))
         if isinstance(recv, str) and attr == 'format':
             try:
                 return recv.format(*args, **kwargs)
@@ -1611,6 +1621,15 @@ _BUILTIN_TYPES = {'int': int, 'float': float, 'str': str, 'bool': bool, 'list': 
                   'dict': dict, 'set': set, 'frozenset': frozenset, 'complex': complex, 'bytes': bytes, 'Ellipsis': Ellipsis}
 
 
+_PURE_STR_METHODS = frozenset((
+    'lower', 'upper', 'strip', 'rstrip', 'lstrip', 'replace', 'startswith', 'endswith', 'split', 'rsplit', 'count',
+    'capitalize', 'splitlines', 'join', 'partition', 'rpartition', 'find', 'rfind', 'index', 'rindex', 'title',
+    'isdigit', 'isidentifier', 'isalpha', 'isalnum', 'isspace', 'isupper', 'islower', 'isnumeric', 'isdecimal',
+    'casefold', 'expandtabs', 'removeprefix', 'removesuffix', 'swapcase', 'zfill', 'ljust', 'rjust', 'center',
+    'encode', 'translate'))
+_STRING_FORMATTER = __import__('string').Formatter
+
+
 def _cached_by_cpython(v):
     """Values of which CPython keeps one object: small ints, empty and one-character texts, identifier-like strings
     (interned when they appear as constants or names)."""
@@ -1657,6 +1676,7 @@ _PURE_DOTTED = {'textwrap.dedent': __import__('textwrap').dedent, 'textwrap.inde
                 'string.capwords': __import__('string').capwords, 'unicodedata.normalize': __import__('unicodedata').normalize,
                 # read-only queries of interpreter state: a representative value (nothing in pedal's logic may depend
                 # on which)
+                'string.Formatter': __import__('string').Formatter, 'str.maketrans': str.maketrans,
                 'sys.getrecursionlimit': lambda: 1000, 'os.getcwd': lambda: '/cwd', 'os.getpid': lambda: 4242,
                 'sys.getswitchinterval': lambda: 0.005, 'threading.active_count': lambda: 1}
 
